@@ -158,14 +158,8 @@ fn warm_up() {
     }
 }
 
-pub fn check_c14(ctx: &Ctx, sc: &SeqCase, st: &mut Stats) -> Result<(), Fail> {
-    thread_local! { static WARM: std::cell::Cell<bool> = const { std::cell::Cell::new(false) }; }
-    WARM.with(|w| {
-        if !w.get() {
-            warm_up();
-            w.set(true);
-        }
-    });
+/// build, run the sequence, drop - and report live bytes before / after on the executing thread
+fn c14_measure(sc: &SeqCase) -> (i64, i64, bool, bool, u64) {
     let mut dup_then_mutation = false;
     let mut failed = false;
     let mut out_digest = 0u64;
@@ -195,6 +189,24 @@ pub fn check_c14(ctx: &Ctx, sc: &SeqCase, st: &mut Stats) -> Result<(), Fail> {
         drop(g);
     }
     let after = alloc::live();
+    (before, after, failed, dup_then_mutation, out_digest)
+}
+
+pub fn check_c14(ctx: &Ctx, sc: &SeqCase, st: &mut Stats) -> Result<(), Fail> {
+    // one warm-up per *process* (the property: "after the first warm-up call"), done on whichever thread
+    // comes first; every other thread starts cold, so state that is lazily allocated per thread and never
+    // released is seen as what it is
+    static WARM: std::sync::Once = std::sync::Once::new();
+    WARM.call_once(warm_up);
+    // every 32nd case is measured on a brand-new thread: nothing may be allocated "once per thread" and kept
+    let fresh_thread = util::digest_str(&format!("{}{}", sc.base.brief(), sc.ops.len())) % 32 == 0;
+    let (before, after, failed, dup_then_mutation, out_digest) = if fresh_thread {
+        st.label("measured on a freshly spawned thread");
+        let sc2 = sc.clone();
+        std::thread::Builder::new().stack_size(64 << 20).spawn(move || c14_measure(&sc2)).expect("spawn").join().expect("join")
+    } else {
+        c14_measure(sc)
+    };
     if failed {
         st.label("a generation failed (skipped; C09 decides)");
         return Ok(());
